@@ -6,6 +6,7 @@
 EXTENDS MessagePassing, Json, IOUtils, SequencesExt, Integers
 Traces == JsonDeserialize(IOEnv.TRACE_FILE)
 VARIABLE tid
+PO == INSTANCE PercolationOps
 SetOf(s) == {s[i] : i \in DOMAIN s}
 CoverOf(t) == [m \in {t.cover[i].id : i \in DOMAIN t.cover} |-> SetOf(t.cover[CHOOSE i \in DOMAIN t.cover : t.cover[i].id = m].V)]
 AsPairs(s) == {<<s[i][1], s[i][2]>> : i \in DOMAIN s}
@@ -23,7 +24,8 @@ FailedRun(t) ==
     (IF ~t.events_known THEN {} ELSE
      {cl \in {"message_not_initialised_to_one_half", "pair_without_a_message", "update_reads_wrong_messages", "update_multiplies_a_message_twice",
              "update_uses_wrong_member_set", "update_writes_another_key", "pair_never_updated", "final_average_reads_wrong_messages",
-             "update_value_not_product_of_inputs_at_phi_one", "message_not_one_at_phi_zero"} :
+             "update_value_not_product_of_inputs_at_phi_one", "message_not_one_at_phi_zero",
+             "first_update_is_not_the_exact_motif_expectation_at_phi_one_half"} :
         CASE cl = "message_not_initialised_to_one_half" -> ~t.init_all_half
           [] cl = "pair_without_a_message" -> AsPairs(t.init_keys) # pairs
           [] cl = "update_reads_wrong_messages" -> \E i \in DOMAIN U : U[i].m \in DOMAIN c /\ AsPairs(U[i].reads) # Inputs(c, U[i].f, U[i].m)
@@ -38,7 +40,18 @@ FailedRun(t) ==
                    ELSE IF \E k \in DOMAIN rx : rx[k] = INF THEN U[i].wx # INF
                    ELSE IF SumSeq(rx) > 1070 THEN U[i].wx # INF /\ U[i].wx # SumSeq(rx)     \* underflow region
                    ELSE U[i].wx # SumSeq(rx)
-          [] cl = "message_not_one_at_phi_zero" -> t.phi_kind = "zero" /\ \E i \in DOMAIN U : U[i].wx # 0})
+          [] cl = "message_not_one_at_phi_zero" -> t.phi_kind = "zero" /\ \E i \in DOMAIN U : U[i].wx # 0
+            \* phi = 1/2, all inputs still at the start value 1/2: the written message is the dyadic rational
+            \*   sum_{a, C} Coef(a, C) * 2^-a * prod_{j in C \ f} 2^-k_j      (k_j = number of other motifs of j), over 2^K
+          [] cl = "first_update_is_not_the_exact_motif_expectation_at_phi_one_half" -> \E i \in DOMAIN U : U[i].spot /\
+                   LET u == U[i]
+                       mo == t.cover[CHOOSE k \in DOMAIN t.cover : t.cover[k].id = u.m]
+                       E == {{mo.E[k][1], mo.E[k][2]} : k \in DOMAIN mo.E}
+                       kj(j) == Cardinality({k \in DOMAIN u.reads : u.reads[k][1] = j})
+                       ct == PO!CoefTable(E, u.f)
+                       expo(r) == r[1] + PO!ISumSet(r[2] \ {u.f}, LAMBDA j : kj(j))
+                   IN ~u.wok \/ \E r1 \in ct : expo(r1) > u.K
+                      \/ u.wn # PO!ISumSet(ct, LAMBDA r2 : r2[3] * Pow2(u.K - expo(r2)))})
     \cup (IF t.phi_kind = "zero" /\ ~t.answer_is_zero THEN {"answer_not_zero_at_phi_zero"} ELSE {})
     \cup (IF t.phi_kind = "one" /\ t.answer_decided /\ t.events_known THEN
              LET X(v) == SumSeq([i \in DOMAIN t.table |-> IF t.table[i].v = v THEN t.table[i].e ELSE 0])
